@@ -147,7 +147,7 @@ class Fn:
             if isinstance(n.slice, ast.Slice):
                 return self.opaque_e(n)
             return "(.sub %s %s)" % (self.ex(n.value), self.ex(n.slice))
-        if isinstance(n, (ast.ListComp, ast.SetComp)):
+        if isinstance(n, (ast.ListComp, ast.SetComp, ast.GeneratorExp)):
             if len(n.generators) == 1 and isinstance(n.generators[0].target, ast.Name) \
                     and not n.generators[0].is_async:
                 g = n.generators[0]
@@ -155,7 +155,8 @@ class Fn:
                     return "(.listComp %s %d %s %s)" % (self.ex(n.elt), self.slots[g.target.id], self.ex(g.iter),
                                                          lst(self.ex(c) for c in g.ifs))
                 if not g.ifs:
-                    return "(.setComp %s %d %s)" % (self.ex(n.elt), self.slots[g.target.id], self.ex(g.iter))
+                    return "(.%s %s %d %s)" % ("setComp" if isinstance(n, ast.SetComp) else "genExp", self.ex(n.elt),
+                                               self.slots[g.target.id], self.ex(g.iter))
             return self.opaque_e(n)
         if isinstance(n, ast.Lambda):
             a = n.args
